@@ -93,6 +93,59 @@ def machine_part(name, machine, max_examples, steps=30, **kw):
     return Part(name, 'machine', machine=machine, max_examples=max_examples, steps=steps, **kw)
 
 
+def concurrent_part(name, strategy, fn, max_examples, group=(2, 4), rounds=3, **kw):
+    """The cases of an ordinary generated part, evaluated 2-4 at a time on simultaneous threads (switch interval 10 microseconds) with the
+    part's own oracle.  A case is first evaluated alone; only cases that are clean alone are asserted clean under concurrency, so that
+    known findings keep being matched by the ordinary parts.  Models and extractors are cached process-wide: whatever per-call state they
+    keep on themselves is shared by these threads."""
+    def strat():
+        from hypothesis import strategies as st
+        return st.lists(strategy(), min_size=group[0], max_size=group[1]).map(lambda cs: {'cases': cs})
+
+    def run(case):
+        import sys
+        import threading
+        cs = case['cases']
+        alone = [fn(c) for c in cs]
+        outs = [None] * len(cs)
+        errs = []
+        barrier = threading.Barrier(len(cs))
+
+        def work(k):
+            try:
+                barrier.wait(timeout=120)
+                for _ in range(rounds):
+                    r = fn(cs[k])
+                    outs[k] = r
+                    if r.violations:
+                        break
+            except BaseException as e:      # noqa: BLE001 - re-raised below
+                errs.append(e)
+        old = sys.getswitchinterval()
+        sys.setswitchinterval(1e-5)
+        try:
+            ths = [threading.Thread(target=work, args=(k,)) for k in range(len(cs))]
+            for t in ths:
+                t.start()
+            for t in ths:
+                t.join()
+        finally:
+            sys.setswitchinterval(old)
+        if errs:
+            raise errs[0]
+        vs = []
+        for k, r in enumerate(outs):
+            if alone[k].violations or r is None:
+                continue
+            for v in r.violations:
+                vs.append(V(v.kind, {'only_under_concurrency': True, 'case': cs[k], 'together_with': [c for j, c in enumerate(cs) if j != k],
+                                     'detail': v.detail}, bucket='CONCURRENT:' + str(v.bucket)))
+        clean = sum(1 for a in alone if not a.violations)
+        return R(vs, nontrivial=clean >= 2, labels=['concurrent:%d' % len(cs)], obs={'first': alone[0].obs}, key=[a.key for a in alone],
+                 evals=len(cs) * (1 + rounds))
+    return Part(name, 'hyp', fn=run, strategy=strat, max_examples=max_examples, **kw)
+
+
 def custom_part(name, run, **kw):
     return Part(name, 'custom', run=run, **kw)
 
@@ -152,6 +205,8 @@ class Findings(object):
     def match(self, case, v):
         if NO_KNOWN:
             return None
+        if isinstance(v.bucket, str) and v.bucket.startswith('CONCURRENT:'):
+            return None     # clean alone, wrong only next to other threads: never a listed finding
         if v.sig is not None:
             fid = self._sigs.get(canon(v.sig))
             if fid:
